@@ -14,15 +14,6 @@ becomes `.unknown` (which no well-formedness predicate accepts).
 namespace SciVerif.Tie
 open SciVerif.TaskFS SciVerif.Generated
 
-/-- remove the bodies of function literals (they run when the callee decides, e.g. `filepath.Walk`) -/
-def dropFuncBodies : List Atom → Nat → List Atom
-  | [], _ => []
-  | a :: as, depth =>
-    if a.kind == .funcB_ then dropFuncBodies as (depth + 1)
-    else if a.kind == .endB_ && a.name == "func" then dropFuncBodies as (depth - 1)
-    else if depth > 0 then dropFuncBodies as depth
-    else a :: dropFuncBodies as depth
-
 /-- the skip block `if t.anyOutputsExist() { t.Done <- 1; return }` is part of `skipIfOutputs` -/
 def stripSkipBlock : List Atom → Option (List Atom)
   | [] => some []
